@@ -69,6 +69,29 @@ try:
     p = fb.new("struct pt *", [3, 4])
     if lt.use(p) != 7:
         bad.append("compiled: a struct made by the included ffi is not accepted by the including lib")
+    # a chain of includes: top2 -> top -> base; names of base asked through top2 FIRST (nothing cached in between)
+    t2 = cffi.FFI()
+    t2.include(t)
+    t2.cdef("int third(void);")
+    t2.set_source("_c34_top2", "typedef int myint_t; enum color { RED, GREEN=5 }; struct pt { int x; myint_t y; }; struct line { struct pt a, b; }; "
+                  "int third(void) { return 3; }")
+    t2.compile(tmpdir=d, verbose=False)
+    import _c34_top2
+    l2 = _c34_top2.lib
+    for nm, want in (("LIMIT", 42), ("KONST", 77), ("gvar", 9)):
+        try:
+            got = getattr(l2, nm)
+        except AttributeError as e:
+            got = "AttributeError"
+        if got != want:
+            bad.append("compiled, two levels of include: lib.%s gives %r, expected %r" % (nm, got, want))
+    try:
+        if l2.twice(4) != 8 or l2.use(p) != 7:
+            bad.append("compiled, two levels of include: functions give wrong results")
+    except AttributeError as e:
+        bad.append("compiled, two levels of include: %s" % e)
+    if _c34_top2.ffi.typeof("struct pt") is not fb.typeof("struct pt"):
+        bad.append("compiled, two levels of include: struct pt is not shared")
 finally:
     sys.path.remove(d)
     shutil.rmtree(d, ignore_errors=True)
